@@ -1,0 +1,26 @@
+//go:build verif
+
+package s2
+
+// Read-only accessors and exported wrappers used by the C07 (loop/polygon
+// relations) conformance harness in /verif (build tag verif only).
+
+// VerifLoopDepth returns the nesting depth assigned to the loop by its polygon.
+func VerifLoopDepth(l *Loop) int { return l.depth }
+
+// VerifLoopBounds returns the loop's bound and subregion bound.
+func VerifLoopBounds(l *Loop) (bound, subregionBound Rect) { return l.bound, l.subregionBound }
+
+// VerifPolygonBounds returns the polygon's bound and subregion bound.
+func VerifPolygonBounds(p *Polygon) (bound, subregionBound Rect) { return p.bound, p.subregionBound }
+
+// VerifLoopCompareBoundary exposes Loop.compareBoundary.
+func VerifLoopCompareBoundary(a, b *Loop) int { return a.compareBoundary(b) }
+
+// VerifLoopContainsNonCrossingBoundary exposes Loop.containsNonCrossingBoundary.
+func VerifLoopContainsNonCrossingBoundary(a, b *Loop, reverseB bool) bool {
+	return a.containsNonCrossingBoundary(b, reverseB)
+}
+
+// VerifPolygonHasHoles returns the polygon's cached hasHoles flag.
+func VerifPolygonHasHoles(p *Polygon) bool { return p.hasHoles }
